@@ -183,6 +183,7 @@ class Interp:
     def __init__(self, path, hooks=None):
         self.p = path
         self.hooks = hooks or {}      # callable -> replacement(interp, args, kw)   (contracts at call sites, models)
+        self.force = set()            # functions interpreted even when all their arguments are concrete
         self.depth = 0
         self.trace = []
 
@@ -276,8 +277,9 @@ class Interp:
             return f(*args, **kw)
         sym = anysym(args) or anysym(list(kw.values()))
         selfobj = getattr(f, '__self__', None)
-        if not sym and not (selfobj is not None and not isinstance(selfobj, types.ModuleType) and anysym(selfobj)
-                            and inspect.ismethod(f)):
+        forced = _hashable(f) and getattr(f, '__func__', f) in self.force
+        if not forced and not sym and not (selfobj is not None and not isinstance(selfobj, types.ModuleType)
+                                           and anysym(selfobj) and inspect.ismethod(f)):
             return self.native(f, args, kw)
         # ---- symbolic arguments
         if f in (print,):
